@@ -53,7 +53,10 @@ impl DetectProp for C06 {
                 let label = *rng.pick(LABEL_SPELLINGS);
                 let kw = *rng.pick(&["charset", "encoding", "coding"]);
                 let sep = *rng.pick(&["=", ":", ": ", "=\"", "='", " = ", "==========", "==========="]);
-                let decl = format!("{}{}{} ", kw, sep, label.trim());
+                // the keyword may be glued to a preceding word (vim's `fileencoding=`, php's `default_charset =`):
+                // the pattern has no word boundary, such a declaration counts like any other
+                let glue = if rng.chance(1, 3) { *rng.pick(&["file", "default_", "input", "x", "_", "9", "Content-"]) } else { "" };
+                let decl = format!("{}{}{}{} ", glue, kw, sep, label.trim());
                 let mut b = vec![];
                 if rng.chance(1, 3) {
                     b.extend_from_slice(rng.pick(MARKS).1);
